@@ -156,7 +156,7 @@ impl MarlinPST13 {
                                     lemma_w_step(f_add(mve(done, x), f_mul(c0, te(t0, x))), f_sub(x(i as int), z(i as int)), mve(qw, x), mve(remainder_terms@, x), kl, cw@, te(rest, x), f_pow(x(i as int), (e - 1) as nat), x(i as int), z(i as int));
                                 }
                             }
-//@before /term_vec\.remove\(idx\);/
+//@afterloop 3
                         let ghost qa = quotient_terms@;
                         let ghost tva = term_vec@;
 //@after /remainder_terms\.push\(/ #1
